@@ -349,13 +349,14 @@ Definition finish_read (t : vtype) (p : rplan) (fetched : list value) : res (lis
 
 (** [Block::createDataFrame] on a fresh block, as of /repo a3cfdfc.  Front-end, in this order: name/type
     checks and the duplicate-entity check (pass: fresh block, fixed name); an EMPTY column list is refused
-    (std::invalid_argument); then per column, in order: type Nothing or a type no Variant supports ->
+    (std::invalid_argument); then per column, in order: an empty name -> std::invalid_argument (9dd5538), type Nothing or a type no Variant supports ->
     std::invalid_argument, a name seen before -> ConsistencyError.  Nothing is created before these pass. *)
 Fixpoint check_cols (cols : list column) (seen : list string) : res unit :=
   match cols with
   | [] => Ok tt
   | c :: r =>
-    if negb (supported (c_type c)) then Err INVARG
+    if is_empty (c_name c) then Err INVARG                  (* 9dd5538: an empty column name is refused up front *)
+    else if negb (supported (c_type c)) then Err INVARG
     else if existsb (String.eqb (c_name c)) seen then Err "nix::ConsistencyError"
     else check_cols r (c_name c :: seen)
   end.
@@ -364,11 +365,8 @@ Definition plan_create (cols : list column) : res unit :=
   if is_nil cols then Err INVARG
   else
   bind (check_cols cols []) (fun _ =>
-  (* [DataFrameHDF5::createData]: every member type is storable and there is at least one member now; the one
-     post-creation failure that stays reachable is H5Tinsert with an EMPTY column name (H5Error after the
-     entity group exists -- the C08 kind of trace; cases end at a rejected create, that state is not modelled) *)
-  if existsb (fun c => is_empty (c_name c)) cols then Err H5ERR
-  else Ok tt).
+  (* [DataFrameHDF5::createData]: every member type is storable, every name non-empty and there is at least one member *)
+  Ok tt).
 
 Definition answer_cells (cs : list (Z * string * nat)) (get : nat -> value) : list rcell :=
   map (fun knc => let '(k, n, c) := knc in (k, n, get c)) cs.
